@@ -80,46 +80,7 @@ def run(prog, rep, tier, cfg):
         for c in CA.calls:
             if callee_is('State::amount_locked')(c):
                 X.arg_has('K10', 'check_available:elapsed', c, 1, ['P:4', 'F:State.start_epoch'], 'elapsed = curr_epoch - start_epoch', narrow=False)
-    # --- signer gates
-    for (hname, gate_targets) in (('propose', 'writes'), ('approve', 'ok'), ('cancel', 'writes')):
-        H = X.fn('Actor::' + hname, CR)
-        cls = [c for c in prog.closures_of(H.id, recursive=False) if any((x.callee or '').endswith('State::is_signer') for x in c.calls)]
-        rep.need('K6b', '%s:signer-gate-closure' % hname, len(cls) == 1, 'expected one transaction closure testing is_signer in %s, found %d' % (hname, len(cls)), X.loc(H))
-        for cl in cls:
-            if gate_targets == 'writes':
-                tg = X.write_blocks(cl, 'State', 'pending_txs') + X.write_blocks(cl, 'State', 'next_tx_id')
-            else:
-                tg = ok_rets(cl)
-            X.guard('K6b', '%s:is_signer(caller)' % hname, cl, tg, m_pred('State::is_signer', ['C:MessageInfo::caller'], True),
-                    'st.is_signer(message().caller())')
-    # approve_transaction: repeated approver rejected, approver pushed is the caller
-    AT = X.fn('Actor::approve_transaction', CR)
-    txs = [c for c in AT.calls if c.callee == RUNTIME + 'transaction' or c.defp == RUNTIME + 'transaction']
-    rep.need('K5', 'approve_transaction:transaction', len(txs) == 1, 'one state transaction expected', X.loc(AT))
-    rej = X.find_conds(AT, m_rel('eq', ['F:Transaction.approved'], ['C:MessageInfo::caller'], True))
-    ok = False
-    if rej and txs:
-        c, arm = rej[0]
-        r = AT.reach([c.arms[arm]])
-        nxt = [x for x in AT.calls if (x.defp or '').endswith('Iterator::next') and has_atom(prog.slicer.operand(AT, x.args[0]), 'F:Transaction.approved')]
-        ok = (txs[0].bb not in r) and not AT.ok_returns_from([c.arms[arm]]) and any(AT.dominates(n.bb, txs[0].bb) for n in nxt)
-    rep.need('K6b', 'approve_transaction:repeat-approver-rejected', ok,
-             'a loop over txn.approved comparing each entry with message().caller() must reject (Err) on equality before the approval is recorded',
-             X.loc(AT))
-    for cl in prog.closures_of(AT.id, recursive=False):
-        pushes = [x for x in cl.calls if (x.callee or '').endswith('Vec::<T, A>::push')]
-        for pcall in pushes:
-            X.arg_has('K10', 'approve_transaction:push-caller', pcall, 1, ['C:MessageInfo::caller'], 'the recorded approver is the message caller')
-            X.followed_by('K7', 'approve_transaction:persisted', cl, [pcall.bb], X.write_blocks(cl, 'State', 'pending_txs'), 'the approval is persisted')
-    # execute is called with the state / txn of this very transaction
-    # cancel: only the earliest approver
-    C = X.fn('Actor::cancel', CR)
-    for cl in prog.closures_of(C.id, recursive=False):
-        if not X.write_blocks(cl, 'State', 'pending_txs'):
-            continue
-        X.guard('K6b', 'cancel:first-approver', cl, X.write_blocks(cl, 'State', 'pending_txs'),
-                m_rel('ne', ['F:Transaction.approved', 'C:first'], ['C:MessageInfo::caller'], False),
-                'tx.approved.first() != Some(caller) => Err')
+    caller_gates(prog, rep, X)
     # --- admin state: single writers (handlers are Is[receiver] by C11)
     admin = ['Actor::constructor', 'Actor::add_signer', 'Actor::remove_signer', 'Actor::swap_signer',
              'Actor::change_num_approvals_threshold', 'Actor::lock_balance', 'State::set_locked']
@@ -210,3 +171,47 @@ def run(prog, rep, tier, cfg):
     X.guard('K6b', 'constructor:threshold>=1', K, cr, m_rel('lt', ['F:ConstructorParams.num_approvals_threshold'], ['V:1'], False), 'threshold < 1 => Err')
     X.guard('K6b', 'constructor:dedup', K, [x.bb for x in K.calls if (x.callee or '').endswith('Vec::<T, A>::push')],
             m_pred('BTreeSet::<T, A>::insert', [], True), 'duplicate signer => Err')
+
+
+def caller_gates(prog, rep, X, prefix=''):
+    """the hand-written caller gates of the accept-any methods Propose / Approve / Cancel (also evaluated under C11)"""
+    # --- signer gates
+    for (hname, gate_targets) in (('propose', 'writes'), ('approve', 'ok'), ('cancel', 'writes')):
+        H = X.fn('Actor::' + hname, CR)
+        cls = [c for c in prog.closures_of(H.id, recursive=False) if any((x.callee or '').endswith('State::is_signer') for x in c.calls)]
+        rep.need('K6b', prefix + '%s:signer-gate-closure' % hname, len(cls) == 1, 'expected one transaction closure testing is_signer in %s, found %d' % (hname, len(cls)), X.loc(H))
+        for cl in cls:
+            if gate_targets == 'writes':
+                tg = X.write_blocks(cl, 'State', 'pending_txs') + X.write_blocks(cl, 'State', 'next_tx_id')
+            else:
+                tg = ok_rets(cl)
+            X.guard('K6b', prefix + '%s:is_signer(caller)' % hname, cl, tg, m_pred('State::is_signer', ['C:MessageInfo::caller'], True),
+                    'st.is_signer(message().caller())')
+    # approve_transaction: repeated approver rejected, approver pushed is the caller
+    AT = X.fn('Actor::approve_transaction', CR)
+    txs = [c for c in AT.calls if c.callee == RUNTIME + 'transaction' or c.defp == RUNTIME + 'transaction']
+    rep.need('K5', prefix + 'approve_transaction:transaction', len(txs) == 1, 'one state transaction expected', X.loc(AT))
+    rej = X.find_conds(AT, m_rel('eq', ['F:Transaction.approved'], ['C:MessageInfo::caller'], True))
+    ok = False
+    if rej and txs:
+        c, arm = rej[0]
+        r = AT.reach([c.arms[arm]])
+        nxt = [x for x in AT.calls if (x.defp or '').endswith('Iterator::next') and has_atom(prog.slicer.operand(AT, x.args[0]), 'F:Transaction.approved')]
+        ok = (txs[0].bb not in r) and not AT.ok_returns_from([c.arms[arm]]) and any(AT.dominates(n.bb, txs[0].bb) for n in nxt)
+    rep.need('K6b', prefix + 'approve_transaction:repeat-approver-rejected', ok,
+             'a loop over txn.approved comparing each entry with message().caller() must reject (Err) on equality before the approval is recorded',
+             X.loc(AT))
+    for cl in prog.closures_of(AT.id, recursive=False):
+        pushes = [x for x in cl.calls if (x.callee or '').endswith('Vec::<T, A>::push')]
+        for pcall in pushes:
+            X.arg_has('K10', prefix + 'approve_transaction:push-caller', pcall, 1, ['C:MessageInfo::caller'], 'the recorded approver is the message caller')
+            X.followed_by('K7', prefix + 'approve_transaction:persisted', cl, [pcall.bb], X.write_blocks(cl, 'State', 'pending_txs'), 'the approval is persisted')
+    # execute is called with the state / txn of this very transaction
+    # cancel: only the earliest approver
+    C = X.fn('Actor::cancel', CR)
+    for cl in prog.closures_of(C.id, recursive=False):
+        if not X.write_blocks(cl, 'State', 'pending_txs'):
+            continue
+        X.guard('K6b', prefix + 'cancel:first-approver', cl, X.write_blocks(cl, 'State', 'pending_txs'),
+                m_rel('ne', ['F:Transaction.approved', 'C:first'], ['C:MessageInfo::caller'], False),
+                'tx.approved.first() != Some(caller) => Err')
